@@ -70,6 +70,19 @@ impl Scenario for C35 {
             };
             steps.push(json!({"op": "submit", "at_ms": t, "timeout_ms": timeout, "kind": kind, "size": size, "delay_ms": delay, "gap_ms": if kind == "slow" { rng.urange(5, 80) } else { 0 }}));
         }
+        let mut max_inflight = max_inflight;
+        if rng.chance(0.1) {
+            // queue pressure: more simultaneous submissions than the in-flight limit and the outgoing queue
+            // take, to a server that does not answer the first ones: later requests wait for a queue slot
+            // and then behind the in-flight limit while their deadlines pass
+            max_inflight = *rng.pick(&[1usize, 1, 2]);
+            let at = rng.below(t + 10);
+            for _ in 0..rng.urange(3, 6) {
+                let kind = *rng.pick(&["never", "never", "late", "reply"]);
+                let timeout = *rng.pick(&[50u64, 100, 200, 400]);
+                steps.push(json!({"op": "submit", "at_ms": at, "timeout_ms": timeout, "kind": kind, "size": 0, "delay_ms": if kind == "late" { timeout + 20 } else { 5 }, "gap_ms": 0}));
+            }
+        }
         let mut pipe = 1usize << 22;
         if rng.chance(0.15) {
             // the peer stops reading (and answering) for a while or for good; a small pipe makes
@@ -84,8 +97,21 @@ impl Scenario for C35 {
             }
         }
         if rng.chance(0.3) {
-            let at = rng.below(t + 300);
-            steps.push(json!({"op": *rng.pick(&["close_server", "close_server", "close_client"]), "at_ms": at}));
+            let mut at = rng.below(t + 300);
+            let op = *rng.pick(&["close_server", "close_server", "close_client", "close_client"]);
+            if op == "close_client" && rng.chance(0.5) {
+                // the close races submissions made at the same instant: requests end up queued behind the
+                // CloseSecureChannel request (or behind the in-flight limit) when the transport closes
+                let k = rng.below(steps.len() as u64) as usize;
+                at = steps[k]["at_ms"].as_u64().unwrap_or(at);
+                if rng.chance(0.5) {
+                    steps.push(json!({"op": "submit", "at_ms": at, "timeout_ms": 400, "kind": "never", "size": 0, "delay_ms": 0, "gap_ms": 0}));
+                }
+            }
+            steps.push(json!({"op": op, "at_ms": at}));
+            if op == "close_client" && rng.chance(0.5) {
+                steps.push(json!({"op": "submit", "at_ms": at, "timeout_ms": *rng.pick(&[50u64, 400]), "kind": "reply", "size": 0, "delay_ms": 0, "gap_ms": 0}));
+            }
         }
         json!({"max_inflight": max_inflight, "max_pending": max_pending, "pipe": pipe, "tseed": rng.next_u64() >> 12, "steps": steps})
     }
@@ -533,6 +559,14 @@ async fn run(plan: &Value, ctx: &mut Ctx) {
                 if out.at < deadline {
                     ctx.violate("C35", "timeout-before-deadline", "", format!("{} completed with BadTimeout at {:.1} ms, before its deadline", desc, ms(out.at)));
                 }
+                // "when its deadline passes": the caller is told then, not a queueing delay later. Time is
+                // virtual here, so the slack (10 ms + a quarter of the time-out) is for implementations that
+                // look at deadlines periodically, not for scheduling noise.
+                let timeout_ms = b["timeout_ms"].as_u64().unwrap_or(100);
+                let slack = Duration::from_millis(10 + timeout_ms / 4);
+                if out.at > deadline + slack {
+                    ctx.violate("C35", "timeout-long-after-deadline", "", format!("{} completed with BadTimeout at {:.1} ms, {:.1} ms after its deadline (time-out {} ms)", desc, ms(out.at), ms(out.at) - ms(deadline), timeout_ms));
+                }
                 if let Some((t, k)) = term {
                     let max_pending_hit = max_pending > 0 && chunks_of.get(idx).cloned().unwrap_or(0) > max_pending + 1;
                     if t + Duration::from_millis(1) < deadline && !closed_before(t) && k != "garbage" && k != "incomplete" && k != "reordered" && !max_pending_hit {
@@ -548,6 +582,9 @@ async fn run(plan: &Value, ctx: &mut Ctx) {
             }
             Err(e) => {
                 class = "closed";
+                if !e.is_bad() {
+                    ctx.violate("C35", "completed-with-non-error-status", e.name(), format!("{} completed without a response and with status {}, which is neither BadTimeout nor a connection-closed status", desc, e.name()));
+                }
                 // closed-class result: the transport must have closed (or be closing at this very instant)
                 // (the transport's own Closed report can be arbitrarily late, so a scripted cause that
                 // precedes the completion is accepted as well)
